@@ -2062,3 +2062,18 @@ def c09_dig_cases(seed, tier):
 
 _extend("C09", c09_dig_cases, "plus .dig documents whose tests are loaded with load_test: every error must be renderable with the source it carries")
 PROPS["C09"]["oracles"] = PROPS["C09"]["oracles"] + [_f16.c16_load_oracle]
+
+
+# ------------------------------------------------------------------ wild profiles: every dial at random, many at an extreme
+def _wild(pref):
+    return lambda seed, tier: add_faults(lambda s_, t_: gen.wild_cases(pref, s_, 80 if t_ == "quick" else 4000),
+                                         ["err", "drop", "add", "dup", "swap", "subst"], 0.3, cont=0.5)(seed, tier)
+
+
+for _p in ("C01", "C02", "C03", "C04", "C05", "C06", "C10", "C13", "C14", "C17", "C18"):
+    _extend(_p, _wild(_p.lower()), "plus the wild family: whole tests from profiles whose every dial (numbers of signals up to 70, nesting up to 11, every kind of name / entry / "
+            "layout / driver behaviour, faults, continuing callers) is drawn at random")
+for _p in ("C15", "C19", "C20", "C11", "C12", "C09"):
+    # these compare parse / bind / static projections: the wild tests are used without faults
+    _extend(_p, (lambda pref: (lambda seed, tier: [dict(c, kind=("parse" if pref in ("c09", "c12") else c["kind"]), faults=[]) for c in gen.wild_cases(pref, seed, 60 if tier == "quick" else 3000)]))(_p.lower()),
+            "plus the wild family (tests from profiles with every dial drawn at random)")
